@@ -8,6 +8,7 @@ Line-protocol front end of the C07 model.
 ```
 C07 coef <family> fwd|bwd <n|->     -> ok κ          exponent coefficient of the multiplier
 C07 magnify m1 m2                   -> ok w d        weight factor |m1 m2| and squared field divisor
+C07 magweights fwd|bwd m1 m2 [w]    -> ok [w']       cell areas of the returned grid: w_i·|m1 m2| (forward), w_i/|m1 m2| (backward)
 C07 magnifyold m1 m2                -> ok d | err value   (unrepaired: sqrt of the signed product)
 C07 mask fwd|bwd [E] [t] [w]        -> ok [E'] pin pout  Apodizer / any phase-only element: E·t (E·conj t), total power
                                                          before / after **with the input weights** (complex lists are flat re,im,…)
@@ -58,6 +59,13 @@ def step (st : St) : List String → St × String
     match parseRat? m1, parseRat? m2 with
     | some a, some b => (st, s!"ok {showRat (magWeightFactor a b)} {showRat (magDivisorSq a b)}")
     | _, _ => (st, "bad-op")
+  | ["magweights", dir, m1, m2, w] =>
+    match parseRat? m1, parseRat? m2, parseRatList? w with
+    | some a, some b, some w =>
+      if (dir ≠ "fwd" ∧ dir ≠ "bwd") ∨ a = 0 ∨ b = 0 then (st, "bad-op") else
+      let out := if dir == "fwd" then magWeights a b (ratFn w) else magWeightsBack a b (ratFn w)
+      (st, "ok " ++ showRatList ((List.range w.length).map out))
+    | _, _, _ => (st, "bad-op")
   | ["magnifyold", m1, m2] =>
     match parseRat? m1, parseRat? m2 with
     | some a, some b =>
